@@ -97,9 +97,10 @@ class Cell:
 class Graph:
     """real objects + the machine extracted from them"""
 
-    def __init__(self, values, flags_of_class):
+    def __init__(self, values, flags_of_class, small=False, grads=None):
         self.values0 = {k: list(v) for k, v in values.items()}
-        self.dic = G.build(values)
+        self.small = small
+        self.dic = G.build(values, small=small, grads=grads)
         self.flags_of_class = flags_of_class
         AbstractParameter, Model, Parametric = _kinds()
         self.nodes = []
@@ -308,8 +309,14 @@ class Graph:
                 for c in self.leaf_cells if self.leaf_id[c] in G.LEAVES}
 
     def leaf_key(self, c):
-        t = self.nodes[self.cells[c].owner].tensor.detach()
-        return (tuple(t.shape), t.numpy().tobytes())
+        t0 = self.nodes[self.cells[c].owner].tensor
+        t = t0.detach()
+        # the "value" of a leaf includes whether gradients are requested through it
+        return (tuple(t.shape), t.numpy().tobytes(), bool(t0.requires_grad))
+
+    def leaf_grads(self):
+        return [self.leaf_id[c] for c in self.leaf_cells
+                if self.leaf_id[c] in G.LEAVES and self.nodes[self.cells[c].owner].tensor.requires_grad]
 
     def eval_all(self, nodes=None):
         """call every getter (on `nodes`, default the real ones); exceptions are reported as values"""
@@ -317,17 +324,25 @@ class Graph:
         out = []
         for ce in self.cells:
             try:
-                out.append(tuple(t.detach().clone() for t in ce.get(nodes[ce.owner])))
+                vals = ce.get(nodes[ce.owner])
+                out.append(tuple(t.detach().clone() for t in vals) + tuple("grad" if t.requires_grad else "nograd" for t in vals))
             except Exception as e:  # noqa: BLE001 — the implementation raised inside a getter
                 out.append(("EXC", type(e).__name__))
         return out
 
     def stale_cells(self):
-        """the oracle: getters (called on a deep copy, so the real state is untouched) compared with a
-        fresh rebuild from JSON holding the same leaf values"""
-        cp = copy.deepcopy(self.nodes)
-        got = self.eval_all(cp)
-        fresh_g = Graph(self.leaf_values_full(), self.flags_of_class)
+        """the oracle: every getter is called (the objects' state is restored afterwards, so the history under
+        test is not disturbed) and compared with a fresh rebuild from JSON holding the same leaf values"""
+        # (snapshot / restore of every object's attribute dictionary rather than copy.deepcopy: tensors that
+        # carry an autograd graph cannot be deep-copied; getters only rebind attributes)
+        snap = [dict(vars(o)) for o in self.nodes]
+        try:
+            got = self.eval_all()
+        finally:
+            for o, d in zip(self.nodes, snap):
+                vars(o).clear()
+                vars(o).update(d)
+        fresh_g = Graph(self.leaf_values_full(), self.flags_of_class, small=self.small, grads=self.leaf_grads())
         if fresh_g.cls != self.cls:
             raise ExtractionError("fresh rebuild has a different node list")
         want = fresh_g.eval_all()
@@ -395,8 +410,8 @@ class Runner:
     """applies a history to a fresh real graph, recording after every operation what the
     correspondence and the oracle need; produces the driver request for the same history"""
 
-    def __init__(self, flags_of_class, values=None):
-        self.g = Graph(values or G.initial_values(), flags_of_class)
+    def __init__(self, flags_of_class, values=None, small=False):
+        self.g = Graph(values or G.initial_values(), flags_of_class, small=small)
         self.stamps = {}
         self.ops_txt = []
         self.obs = []  # per step: dict(raised, exc, flags, leaves, stale)
@@ -442,6 +457,33 @@ class Runner:
                 except Exception as e:  # noqa: BLE001 — the implementation raised: that is an observation
                     raised, exc = True, exc_info(e)
                 self.ops_txt.append(f"{'A' if kind == 'assign' else 'I'}{j};{self.asg()}")
+            elif kind == "reassign":
+                # t = p.tensor; t[i] = v; p.tensor = t  — in-place edit of the held tensor, then the SAME tensor
+                # object is assigned back (what ScalerOperator / SlidingWindowOperator do)
+                o = g.dic[op["target"]]
+                j = g.idx[id(o)]
+                cc = g.cell_index[(j, 0)]
+                try:
+                    t = o.tensor
+                except Exception as e:  # noqa: BLE001
+                    t, raised, exc = None, True, exc_info(e)
+                if t is not None:
+                    if t.requires_grad and t.is_leaf:
+                        return False  # torch forbids the caller's own in-place edit: not an operation
+                    t.reshape(-1)[op["index"] % t.numel()] = op["element"]
+                    try:
+                        o.tensor = t
+                    except Exception as e:  # noqa: BLE001
+                        raised, exc = True, exc_info(e)
+                self.ops_txt.append(f"P-;{cc};{j};-;{self.asg()}")
+            elif kind == "grad":
+                o = g.dic[op["target"]]
+                j = g.idx[id(o)]
+                try:
+                    o.requires_grad = bool(op["value"])
+                except Exception as e:  # noqa: BLE001
+                    raised, exc = True, exc_info(e)
+                self.ops_txt.append(f"A{j};{self.asg()}")
             elif kind == "eval":
                 o = g.dic[op["node"]]
                 c = g.cell_index[(g.idx[id(o)], op["cell"])]
@@ -552,34 +594,70 @@ def evalall_expand(history):
 # ------------------------------------------------------------------------------------------------
 # history generation
 # ------------------------------------------------------------------------------------------------
-def gen_update(g: Graph, rng, k):
-    """one random update operation (JSON-able)"""
+def footprint(g: Graph, target):
+    """ids of the plain leaves an update of `target` writes"""
+    o = g.dic[target]
+    return {g.leaf_id[c] for c in g.leaves_under(g.cell_index[(g.idx[id(o)], 0)])}
+
+
+def gen_reassign(g: Graph, rng, target):
+    v = value_for(g, target, rng).reshape(-1)
+    i = rng.randrange(len(v))
+    return {"op": "reassign", "target": target, "index": i, "element": float(v[i])}
+
+
+GRADABLE = ["mu", "theta", "theta2", "heights2", "heights3", "bl", "log_kappa", "kappa", "cat_ab", "cat_a", "loc",
+            "log_scale", "scale", "clock_rate", "pinv2", "wshape", "hky_freqs", "cgd_alpha", "ratios"]
+
+
+def gen_update(g: Graph, rng, k, grad_on=frozenset()):
+    """one random update operation (JSON-able). `grad_on`: leaves currently built with requires_grad — torch
+    forbids in-place edits of those, so only whole-tensor assignments / no_grad in-place steps touch them"""
     r = rng.random()
+    if r < 0.10:
+        t = rng.choice(GRADABLE)
+        return {"op": "grad", "target": t, "value": not (footprint(g, t) & grad_on)}
+    if r < 0.22:
+        for _ in range(20):
+            t = rng.choice(settable_ids(g))
+            if not (footprint(g, t) & grad_on):
+                return gen_reassign(g, rng, t)
     if r < 0.50:
         t = rng.choice(sorted(G.LEAVES))
         v = value_for(g, t, rng)
         return {"op": "assign" if rng.random() < 0.75 else "inplace", "target": t,
                 "value": v.reshape(-1).tolist(), "shape": list(v.shape)}
     if r < 0.68:
-        t = rng.choice([x for x in settable_ids(g) if x not in G.LEAVES])
-        v = value_for(g, t, rng)
-        return {"op": "assign", "target": t, "value": v.reshape(-1).tolist(), "shape": list(v.shape)}
+        for _ in range(20):
+            t = rng.choice([x for x in settable_ids(g) if x not in G.LEAVES])
+            if not (footprint(g, t) & grad_on):  # views / cats write in place into their parents
+                v = value_for(g, t, rng)
+                return {"op": "assign", "target": t, "value": v.reshape(-1).tolist(), "shape": list(v.shape)}
     if r < 0.80:
-        return {"op": "draw", "dist": rng.choice(DISTS), "seed": rng.randrange(1 << 30), "rsample": rng.random() < 0.5}
-    kind = rng.choice(["scaler", "slide", "dirichlet"])
-    if kind == "scaler":
-        ps = rng.sample(POSITIVE, rng.choice([1, 2, 3]))
-    elif kind == "slide":
-        ps = rng.sample(REALS, rng.choice([1, 2]))
-    else:
-        ps = [rng.choice(SIMPLEX)]
-    return {"op": "propose", "kind": kind, "params": ps, "seed": rng.randrange(1 << 30), "ref": k,
-            "tune": 0.5 if kind != "dirichlet" else 50.0}
+        for _ in range(20):
+            d = rng.choice(DISTS)
+            if not (footprint(g, g.name[g.idx[id(g.dic[d].x)]]) & grad_on):
+                return {"op": "draw", "dist": d, "seed": rng.randrange(1 << 30), "rsample": rng.random() < 0.5}
+    for _ in range(20):
+        kind = rng.choice(["scaler", "slide", "dirichlet"])
+        if kind == "scaler":
+            ps = rng.sample(POSITIVE, rng.choice([1, 2, 3]))
+        elif kind == "slide":
+            ps = rng.sample(REALS + ["heights3"], rng.choice([1, 2]))
+        else:
+            ps = [rng.choice(SIMPLEX)]
+        if not any(footprint(g, x) & grad_on for x in ps):
+            return {"op": "propose", "kind": kind, "params": ps, "seed": rng.randrange(1 << 30), "ref": k,
+                    "tune": (0.5 if kind == "scaler" else 0.05) if kind != "dirichlet" else 50.0}
+    t = rng.choice(sorted(G.LEAVES))
+    v = value_for(g, t, rng)
+    return {"op": "assign", "target": t, "value": v.reshape(-1).tolist(), "shape": list(v.shape)}
 
 
 def gen_history(g: Graph, rng, length):
     hist = []
     pending = []
+    grad_on = set()
     named = [(g.name[ce.owner], ce.tmpl) for ce in g.cells if ce.owner in g.name]
     while len(hist) < length:
         r = rng.random()
@@ -589,12 +667,19 @@ def gen_history(g: Graph, rng, length):
             hist.append({"op": "eval", "node": n, "cell": t})
         elif r < 0.36:
             hist.append({"op": "evalall"})
-        elif r < 0.44 and pending:
+        elif r < 0.44 and pending and not grad_on:
             hist.append({"op": "reject", "ref": pending.pop()})
         else:
-            op = gen_update(g, rng, k)
+            op = gen_update(g, rng, k, frozenset(grad_on))
             if op["op"] == "propose":
                 pending.append(k)
+            # keep track of which leaves request gradients (a whole-tensor assignment installs a fresh tensor)
+            if op["op"] == "grad":
+                (grad_on.update if op["value"] else grad_on.difference_update)(footprint(g, op["target"]))
+            elif op["op"] in ("assign", "draw", "reassign"):
+                tgt = op.get("target") or g.name[g.idx[id(g.dic[op["dist"]].x)]]
+                if tgt in G.LEAVES:
+                    grad_on.discard(tgt)
             hist.append(op)
     return hist
 
@@ -602,9 +687,9 @@ def gen_history(g: Graph, rng, length):
 # ------------------------------------------------------------------------------------------------
 # running one history: correspondence + oracle
 # ------------------------------------------------------------------------------------------------
-def run_history(flags_of_class, drv, hist, want_model=True):
+def run_history(flags_of_class, drv, hist, want_model=True, small=False):
     """-> dict(mismatch=None|{...}, violation=None|{...}, head, n_steps)"""
-    rn = Runner(flags_of_class)
+    rn = Runner(flags_of_class, small=small)
     done = []
     for k, op in enumerate(hist):
         if rn.apply(op, k):
@@ -680,7 +765,7 @@ def run_history(flags_of_class, drv, hist, want_model=True):
     return res
 
 
-def shrink(flags_of_class, drv, hist, pred):
+def shrink(flags_of_class, drv, hist, pred, small=False):
     """shortest sub-history (greedy one-at-a-time removal to a fixpoint) on which `pred(result)` holds"""
     cur = list(hist)
     changed = True
@@ -689,7 +774,7 @@ def shrink(flags_of_class, drv, hist, pred):
         for i in range(len(cur) - 1, -1, -1):
             cand = cur[:i] + cur[i + 1:]
             try:
-                r = run_history(flags_of_class, drv, cand, want_model=drv is not None)
+                r = run_history(flags_of_class, drv, cand, want_model=drv is not None, small=small)
             except Exception:  # noqa: BLE001
                 continue
             if pred(r):
@@ -784,15 +869,15 @@ def run(ck: Check):
     reported = set()
     first_mismatch = None
 
-    def handle(hist, bucket):
+    def handle(hist, bucket, small=False):
         nonlocal first_mismatch
         try:
-            r = run_history(flags_of_class, drv, hist)
+            r = run_history(flags_of_class, drv, hist, small=small)
         except ExtractionError as e:
             ck.mismatch("graph extraction failed", str(e))
             return None
-        key = tuple((o["op"], o.get("target") or o.get("node") or o.get("dist") or ",".join(o.get("params", [])) or "")
-                    for o in r["done"])
+        key = tuple((o["op"], o.get("target") or o.get("node") or o.get("dist") or ",".join(o.get("params", [])) or "",
+                     o.get("cell", o.get("index", o.get("value") if o["op"] == "grad" else None))) for o in r["done"])
         ck.case(key=key, bucket=bucket,
                 nontrivial=any(o["op"] not in ("eval", "evalall") for o in r["done"]),
                 sample={"history": [_short(o) for o in r["done"]][:6], "violation": r["violation"] and vio_sig(r["violation"]),
@@ -804,17 +889,17 @@ def run(ck: Check):
                     ck.mismatch(f"extracted graph fails the model's {k2} check", r["head"])
             ck.extra["graph_checks"] = r["head"]
         if r["mismatch"] is not None and first_mismatch is None:
-            small = shrink(flags_of_class, drv, r["done"], lambda x: x["mismatch"] is not None)
-            rr = run_history(flags_of_class, drv, small)
-            first_mismatch = {"history": small, "mismatch": rr["mismatch"]}
+            sm = shrink(flags_of_class, drv, r["done"], lambda x: x["mismatch"] is not None, small=small)
+            rr = run_history(flags_of_class, drv, sm, small=small)
+            first_mismatch = {"history": sm, "small_graph": small, "mismatch": rr["mismatch"]}
             ck.mismatch("model and implementation disagree", first_mismatch)
         if r["violation"] is not None:
             sig = vio_sig(r["violation"])
             if sig not in found:
-                small = shrink(flags_of_class, None, r["done"],
-                               lambda x: x["violation"] is not None and vio_sig(x["violation"]) == sig)
-                rr = run_history(flags_of_class, None, small, want_model=False)
-                found[sig] = (rr["violation"], small)
+                sm = shrink(flags_of_class, None, r["done"],
+                            lambda x: x["violation"] is not None and vio_sig(x["violation"]) == sig, small=small)
+                rr = run_history(flags_of_class, None, sm, want_model=False, small=small)
+                found[sig] = (rr["violation"], sm, small)
         return r
 
     # ---- corpus first
@@ -842,26 +927,69 @@ def run(ck: Check):
         if t in G.LEAVES:
             v = value_for(g0, t, rng)
             singles.append({"op": "inplace", "target": t, "value": v.reshape(-1).tolist(), "shape": list(v.shape)})
+        singles.append(gen_reassign(g0, rng, t))  # in-place edit + the same tensor object assigned back
+    for t in GRADABLE:
+        singles.append({"op": "grad", "target": t, "value": True})
     for d in DISTS:
         singles.append({"op": "draw", "dist": d, "seed": rng.randrange(1 << 30), "rsample": False})
     for k, (kind, ps) in enumerate([("scaler", ["mu", "kappa", "gtr_rates"]), ("slide", ["cat_ab", "loc"]),
-                                    ("dirichlet", ["hky_freqs"]), ("scaler", ["mg_kappa", "theta"])]):
+                                    ("dirichlet", ["hky_freqs"]), ("scaler", ["mg_kappa", "theta"]),
+                                    ("slide", ["heights3"]), ("slide", ["heights2"]), ("scaler", ["theta2"]),
+                                    ("scaler", ["bl"]), ("scaler", ["root_height"]), ("slide", ["log_kappa", "log_scale"]),
+                                    ("scaler", ["tail_rates", "clock_rate"]), ("dirichlet", ["gtr_freqs"])]):
         singles.append({"op": "propose", "kind": kind, "params": ps, "seed": rng.randrange(1 << 30),
-                        "ref": 1, "tune": 50.0 if kind == "dirichlet" else 0.5})
-    for u in singles:
+                        "ref": 1, "tune": 50.0 if kind == "dirichlet" else (0.5 if kind == "scaler" else 0.05)})
+    if not ck.thorough():  # quick tier: every assignment target and every operator, a sample of the rest
+        keep = [u for u in singles if u["op"] in ("assign", "propose", "draw")]
+        for kind, n in (("inplace", 12), ("reassign", 14), ("grad", 6)):
+            pool = [u for u in singles if u["op"] == kind]
+            keep += rng.sample(pool, min(n, len(pool)))
+        singles_run = keep
+    else:
+        singles_run = singles
+    for u in singles_run:
         h = [{"op": "evalall"}, dict(u)]
         if u["op"] == "propose":
             h.append({"op": "reject", "ref": 1})
+        if u["op"] == "grad":  # and back off again
+            h.append({"op": "grad", "target": u["target"], "value": False})
         handle(h, "exhaustive/warm+1")
+    # ---- only ONE of several dependents is evaluated between two updates of the same leaf
+    dep = {}
+    for c, ce in enumerate(g0.cells):
+        if ce.owner in g0.name and c not in g0._leafset and ce.name != "contents":
+            for lc in g0.leaves_under(c):
+                if g0.leaf_id[lc] in G.LEAVES:
+                    dep.setdefault(g0.leaf_id[lc], []).append((g0.name[ce.owner], ce.tmpl))
+    leaves = sorted(dep)
+    rng.shuffle(leaves)
+    for lid in leaves[: (len(leaves) if ck.thorough() else 10)]:
+        ds = dep[lid]
+        a, b = (rng.sample(ds, 2) if len(ds) >= 2 else (ds[0], ds[0]))
+        v1, v2 = value_for(g0, lid, rng), value_for(g0, lid, rng)
+        u1 = {"op": "assign", "target": lid, "value": v1.reshape(-1).tolist(), "shape": list(v1.shape)}
+        u2 = {"op": "assign", "target": lid, "value": v2.reshape(-1).tolist(), "shape": list(v2.shape)}
+        ea, eb = {"op": "eval", "node": a[0], "cell": a[1]}, {"op": "eval", "node": b[0], "cell": b[1]}
+        handle([{"op": "evalall"}, u1, ea, u2, eb], "interleave/one-dependent-warm")
+        handle([dict(u1), dict(ea), dict(u2)], "interleave/one-dependent-cold")
     # pairs (a random sample; larger in the thorough tier)
-    pairs = [(a, b) for a in singles for b in singles if a["op"] != "propose" and b["op"] != "propose"]
+    pairs = [(a, b) for a in singles for b in singles
+             if a["op"] not in ("propose", "grad") and b["op"] not in ("propose", "grad")]
     rng.shuffle(pairs)
-    for a, b in pairs[: (500 if ck.thorough() else 25)]:
+    for a, b in pairs[: (500 if ck.thorough() else 15)]:
         handle([{"op": "evalall"}, dict(a), dict(b)], "exhaustive/warm+2")
     # cold start (flags as the constructors leave them), every single update
-    for u in singles[:: (1 if ck.thorough() else 4)]:
+    for u in singles[:: (1 if ck.thorough() else 9)]:
         if u["op"] != "propose":
             handle([dict(u)], "exhaustive/cold+1")
+    # the plain TimeTreeModel seen only through node_heights by its coalescent
+    for upd in ("assign", "inplace", "reassign"):
+        v = value_for(g0, "heights3", rng)
+        u = (gen_reassign(g0, rng, "heights3") if upd == "reassign" else
+             {"op": upd, "target": "heights3", "value": v.reshape(-1).tolist(), "shape": list(v.shape)})
+        ec = {"op": "eval", "node": "coal2", "cell": 0}
+        handle([dict(ec), u, dict(ec)], "heights-only-observer")
+        handle([dict(ec), u, {"op": "eval", "node": "ttree3", "cell": 1}, dict(ec)], "heights-only-observer")
 
     # ---- random histories
     n_hist = 150 if ck.thorough() else 40
@@ -869,20 +997,48 @@ def run(ck: Check):
     for _ in range(n_hist):
         L = rng.randint(2, max_len)
         handle(gen_history(g0, rng, L), f"random/len<={((L - 1) // 10 + 1) * 10}")
-        if ck_time(ck) > (780 if ck.thorough() else 70):
+        if ck_time(ck) > (700 if ck.thorough() else 75):
             ck.notes.append("stopped random histories at the time budget")
             break
+
+    # ---- exhaustive short histories over a fixed operation alphabet on the tree-free sub-graph
+    gs = Graph(G.initial_values(), flags_of_class, small=True)
+    ck.extra["small_graph"] = {"nodes": len(gs.nodes), "cells": len(gs.cells), "classes": sorted(set(gs.cls))}
+    alphabet = []
+    for t in settable_ids(gs):
+        v = value_for(gs, t, rng)
+        alphabet.append({"op": "assign", "target": t, "value": v.reshape(-1).tolist(), "shape": list(v.shape)})
+    for d in ("normal", "prior_kappa", "prior_tail"):
+        alphabet.append({"op": "draw", "dist": d, "seed": rng.randrange(1 << 30), "rsample": False})
+    for n, t in (("joint", 0), ("normal", 0), ("hky", 0), ("gtr", 0), ("cc", 0), ("kappa", 1), ("site_i", 0), ("cat_ab", 0)):
+        alphabet.append({"op": "eval", "node": n, "cell": t})
+    ck.extra["small_graph"]["alphabet"] = len(alphabet)
+    import itertools
+
+    depth2 = list(itertools.product(alphabet, repeat=2))
+    if not ck.thorough():
+        rng.shuffle(depth2)
+        depth2 = depth2[:150]
+    for a, b in depth2:
+        handle([dict(a), dict(b)], "exhaustive-small/len2", small=True)
+        if not ck.thorough() and ck_time(ck) > 85:
+            break
+    if ck.thorough():
+        upd = [o for o in alphabet if o["op"] != "eval"]
+        core = upd[::2] + [o for o in alphabet if o["op"] == "eval"][:4]
+        for tr in itertools.product(core, repeat=3):
+            handle([dict(o) for o in tr], "exhaustive-small/len3", small=True)
 
     if drv:
         drv.close()
 
     # ---- verdict
-    for sig, (v, hist) in sorted(found.items()):
+    for sig, (v, hist, on_small) in sorted(found.items()):
         what = (f"{v['class']}: " + (f"parameter update raises {v['exc'][0]} ({v['exc'][2]})" if v["kind"] == "raises"
                                      else f"getter raises {v['exc']}" if v["kind"] == "getter-raises"
                                      else f"{v['cell']} returns a stale value (also stale: {len(v['all']) - 1} downstream)")
                 + f" after a history of {len(hist)} operation(s)")
-        ck.violation(sig, what, {"history": hist, "violation": v, "broken_obligations": broken,
+        ck.violation(sig, what, {"history": hist, "small_graph": on_small, "violation": v, "broken_obligations": broken,
                                  "replay_cmd": "./check C11 --replay <this file>"})
     if not found and (not ok or ck.mismatches):
         ck.violation("C11:unproved", "C11 theorems or the model/implementation correspondence no longer check",
@@ -913,7 +1069,7 @@ def replay(path: str) -> int:
         return 1
     _, _, _, table = tr_wiring.translate(REPO)
     flags_of_class = {d["name"]: d["flags"] for d in table}
-    r = run_history(flags_of_class, None, hist, want_model=False)
+    r = run_history(flags_of_class, None, hist, want_model=False, small=bool(obj.get("small_graph")))
     rn = r["runner"]
     for i, ob in enumerate(rn.obs):
         op = r["done"][i - 1] if i else "(after construction)"
